@@ -7,6 +7,7 @@ import (
 	"net/http"
 	"net/http/httptest"
 	"net/url"
+	"strings"
 	"testing"
 
 	"github.com/gookit/rux"
@@ -107,6 +108,18 @@ func prop(t *rapid.T) {
 	tb.Routes = model.GenRoutes(t, cfg, tb.Opts.Strict)
 	if len(tb.Routes) == 0 {
 		t.Skip("empty table")
+	}
+	if rapid.IntRange(0, 7).Draw(t, "interceptAll") == 0 {
+		// InterceptAll(p): every request is a request for p - p is a path like any other (trailing slash under
+		// strict mode, decorations), whatever the order of the options
+		p, _, _, _, _ := model.GenProbePath(t, tb.Routes)
+		if tb.Opts.Strict && rapid.Bool().Draw(t, "interceptTrailingSlash") {
+			p = strings.TrimRight(p, "/") + "/"
+		}
+		if model.Stable(p, tb.Opts.Strict) {
+			tb.Opts.Intercept, tb.Opts.InterceptTo = true, p
+			ev.Class("table:InterceptAll")
+		}
 	}
 	viaGroup := make([]int, len(tb.Routes))
 	for i, d := range tb.Routes {
